@@ -66,6 +66,10 @@ a tree of `let` / `Option.bind` / `if` / `match` nodes in SSA (state-passing) fo
     (`self_methods`), `param_subst`, `local_types`, `narrowing_casts` (`usize as u32` without the truncation); `o.unwrap_or_else(f)` for a
     translated `f` that cannot panic; arithmetic on two unsuffixed literals in a context of known integer type; `match` / `if let` statements
     with an arm that leaves the function (the rest of the block continues in the arms that fall through); tuple patterns.
+    Record fields of the state (`Coordinate`: `ColumnReference` / `RowReference`; the protection structs: the value holders `StringValue` /
+    `UInt32Value` / `BooleanValue`): `self.<field>.set_f(v);` / `self.<field>.remove_f();` is a new version of the field with `f` replaced,
+    the callee's body being read from the record's own file (`self.f = value`, `self.f = Some(value)`, `self.f = None`; anything else is
+    `Unsupported`); such a statement inside an `if` / `match` makes the field part of the join (`assigned`).
 
 Anything else raises `Unsupported`: the committed snapshot of that definition is kept and the item is reported under
 "fallbacks" (not a violation; the tie for it falls back to the correspondence check alone).
@@ -285,6 +289,14 @@ class Fn:
             elif s[0] == "expr" and s[1][0] == "mcall" and s[1][1][0] == "path" and len(s[1][1][1]) == 1 and s[1][1][1][0] in getattr(getattr(self, "root", self), "obj_vars", ()):
                 x = s[1][1][1][0]
                 if x not in local and x not in acc: acc.append(x)
+            elif s[0] == "expr" and s[1][0] == "mcall" and s[1][1][0] == "field" and s[1][1][1] == ("path", ["self"]):
+                # `self.<field>.m(..);` as a statement (a setter of a record field, `insert` / `push` on a map / list field): the field of
+                # the state is written (an over-approximation is harmless: the join returns the unchanged version)
+                x = "self." + s[1][1][2]
+                if x not in acc: acc.append(x)
+            elif s[0] == "expr" and s[1][0] == "mcall" and s[1][1] == ("path", ["self"]) and s[1][2] in self.unit.spec.get("self_methods", {}):
+                for f in getattr(getattr(self, "root", self), "state_fields", ()):
+                    if "self." + f not in acc: acc.append("self." + f)
             elif s[0] == "expr" and s[1][0] == "if":
                 self.assigned(s[1][2], acc, local)
                 if s[1][3] is not None: self.assigned(s[1][3], acc, local)
@@ -527,7 +539,22 @@ class Fn:
             if e[0] == "mcall" and e[1][0] == "field" and e[1][1] == ("path", ["self"]) and ("self." + e[1][2]) in env and self.state_fields:
                 key = "self." + e[1][2]; mt = env[key][1]
                 pre = []
-                if isinstance(mt, tuple) and mt[0] == "map" and e[2] == "insert" and len(e[4]) == 2:
+                if isinstance(mt, tuple) and mt[0] == "rec" and len(e[4]) == 1:
+                    # `self.<field>.set_f(v);` on a record field of the state: a new version of the field with `f` replaced (the setter's
+                    # body is read from the record's own file: `self.f = value` or `self.f = Some(value)`)
+                    fld = self.unit.record_setter(mt[1], e[2]); some = False
+                    if fld is None: fld = self.unit.record_setter_some(mt[1], e[2]); some = True
+                    if fld is None: raise Unsupported(f"method {mt[1]}::{e[2]} is not a plain setter")
+                    ft = RECS[mt[1]]["fields"][fld]
+                    if some: ft = ft[1]
+                    v, vt = self.expr(e[4][0], env, pre, ft); v, vt = self.coerce(v, vt, ft)
+                    new = f"{{ {env[key][0]} with {fld} := " + (f"some {v}" if some else v) + " }"
+                elif isinstance(mt, tuple) and mt[0] == "rec" and len(e[4]) == 0:
+                    # `self.<field>.remove_f();`: `self.f = None` in the record's own file
+                    fld = self.unit.record_remover(mt[1], e[2])
+                    if fld is None: raise Unsupported(f"method {mt[1]}::{e[2]} is not a plain remover")
+                    new = f"{{ {env[key][0]} with {fld} := none }}"
+                elif isinstance(mt, tuple) and mt[0] == "map" and e[2] == "insert" and len(e[4]) == 2:
                     a, at = self.expr(e[4][0], env, pre, mt[1]); a, at = self.coerce(a, at, mt[1])
                     b, bt = self.expr(e[4][1], env, pre, mt[2]); b, bt = self.coerce(b, bt, mt[2])
                     new = f"(rt_map_insert {env[key][0]} {a} {b})"
@@ -1106,6 +1133,10 @@ class Fn:
                 raise Unsupported(f"unknown identifier {x}")
             if len(segs) == 2 and segs[0] in self.unit.spec.get("enum_vals", ()):
                 return self.enum_ctor(segs[0], segs[1], [], env, pre)
+            if len(segs) == 2 and segs[0] in self.unit.spec.get("assoc_consts", ()):
+                # `Type::CONST`: an associated constant of a type named in `assoc_consts` (looked up in the unit's file, then `const_files`)
+                c = self.unit.const_value(self, segs[1])
+                if c is not None: return c
             raise Unsupported("path expression " + "::".join(segs))
         if k == "field":
             if e[1] == ("path", ["self"]) and ("self." + e[2]) in env: return env["self." + e[2]]
@@ -1663,6 +1694,40 @@ class Unit:
             return st[0][1][2]
         return None
 
+    def record_remover(self, struct, name):
+        """`fn name(&mut self) -> &mut Self { self.f = None; self }`: the field `f`"""
+        info = RECS.get(struct)
+        if info is None: return None
+        try:
+            d = self.sources(info["file"]).parse_fn(name, struct)
+        except Unsupported:
+            return None
+        ps = [p for p, _ in d["params"]]
+        if ps != ["self"]: return None
+        st, tl = d["body"][1], d["body"][2]
+        if len(st) == 1 and st[0][0] == "assign" and st[0][2] == "=" and st[0][1][0] == "field" and st[0][1][1] == ("path", ["self"]) \
+                and st[0][3] == ("path", ["None"]) and tl in (None, ("path", ["self"])) and st[0][1][2] in info["fields"] \
+                and isinstance(info["fields"][st[0][1][2]], tuple) and info["fields"][st[0][1][2]][0] == "opt":
+            return st[0][1][2]
+        return None
+
+    def record_setter_some(self, struct, name):
+        """`fn name(&mut self, value: T) -> &mut Self { self.f = Some(value); self }` (the value holders `BooleanValue`, ..): the field `f`"""
+        info = RECS.get(struct)
+        if info is None: return None
+        try:
+            d = self.sources(info["file"]).parse_fn(name, struct)
+        except Unsupported:
+            return None
+        ps = [p for p, _ in d["params"]]
+        if len(ps) != 2 or ps[0] != "self": return None
+        st, tl = d["body"][1], d["body"][2]
+        if len(st) == 1 and st[0][0] == "assign" and st[0][2] == "=" and st[0][1][0] == "field" and st[0][1][1] == ("path", ["self"]) \
+                and st[0][3] == ("call", ("path", ["Some"]), [("path", [ps[1]])]) and tl in (None, ("path", ["self"])) and st[0][1][2] in info["fields"] \
+                and isinstance(info["fields"][st[0][1][2]], tuple) and info["fields"][st[0][1][2]][0] == "opt":
+            return st[0][1][2]
+        return None
+
     def extern_method(self, fn, recv, name, args):
         """`<param>.getter()` declared as an input of the fragment"""
         if recv[0] == "path" and len(recv[1]) == 1:
@@ -1674,6 +1739,12 @@ class Unit:
     def extern_var_method(self, fn, recv, name, args, env, pre):
         """`<variable>.method(args)` declared as an input of the fragment: a value (`extern_values`) or a function (`extern_var_fns`)
         that becomes a parameter of every definition of the unit"""
+        if recv[0] == "mcall" and recv[1] == ("path", ["self"]) and not recv[4] and not args:
+            # `self.<getter>().<getter>()` declared as one input of the fragment (key: ("self.<getter>", name))
+            g = self.spec.get("extern_values", {}).get(("self." + recv[2], name))
+            if g is None: return None
+            if (g[0], lean_type(g[1])) not in self.extra_params: self.extra_params.append((g[0], lean_type(g[1])))
+            return g
         if not (recv[0] == "path" and len(recv[1]) == 1): return None
         g = self.spec.get("extern_values", {}).get((recv[1][0], name))
         if g is not None and not args:
@@ -2067,6 +2138,12 @@ TARGETS = [
     t_fn("raw_get_data_type", RAW, "get_data_type", self_type="CellRawValue", enums={"CellRawValue": RAW}),
     t_fn("get_data_type_crate", CV, "get_data_type_crate", self_type="CellValue", enums={"CellRawValue": RAW},
          enum_methods={("CellRawValue", "get_data_type"): ("raw_get_data_type", "str")}),
+    # C19 (cell kinds)
+    t_fn("cell_get_formatted_value", "src/structs/cell.rs", "get_formatted_value", self_type="Cell", abstract_types={"f64": "Num"},
+         extern_values={("self", "get_value"): ("value_of_cell", "str"), ("self", "get_value_number"): ("value_number_of_cell", ("opt", ("abs", "Num"))),
+                        ("self.get_style", "get_number_format"): ("format_code_of_style", ("opt", "str"))},
+         transparent_methods=("get_format_code",), const_files=[NFMT], assoc_consts=("NumberingFormat",),
+         extern_fns={"to_formatted_string": (["str", "str"], "str", True)}),
     # C03
     t_enum_val("CellRawValue_val", RAW, "CellRawValue"),
     t_fn("guess_typed_data", CV, "guess_typed_data", self_type="CellValue", enum_vals=("CellRawValue",),
@@ -2170,6 +2247,34 @@ TARGETS += [
          extern_fns=dict(X_CRYPT, **X_HMAC),
          extern_draws={"gen_random_16": BYTES, "gen_random_32": BYTES, "gen_random_64": BYTES}, **CK),
 ]
+
+# C17 / C15: object-level glue.  `Coordinate` = two records (number + lock flag) threaded as state; `index_from_coordinate` (regex-based, tied
+# by C17_regex_matches_source / behaviour) and `coordinate_from_index_with_lock` (translated above) are parameters.  The protection structs:
+# every field is a value holder (`StringValue` / `UInt32Value` / `BooleanValue` = a record with one `Option` field), all threaded as state,
+# so that "touches its own field only" is visible in the generated definition.
+COORDS = "src/structs/coordinate.rs"
+COLREF = "src/structs/column_reference.rs"
+ROWREF = "src/structs/row_reference.rs"
+REFS = {"ColumnReference": COLREF, "RowReference": ROWREF}
+OB, OU = ("opt", "bool"), ("opt", "u32")
+SHEETP, BOOKP = "src/structs/sheet_protection.rs", "src/structs/workbook_protection.rs"
+HOLDERS = {"StringValue": "src/structs/string_value.rs", "UInt32Value": "src/structs/u_int32_value.rs", "BooleanValue": "src/structs/boolean_value.rs"}
+SHEET_FLAGS = ["sheet", "objects", "delete_rows", "insert_columns", "delete_columns", "insert_hyperlinks", "auto_filter", "scenarios", "format_cells",
+               "format_columns", "insert_rows", "format_rows", "pivot_tables", "select_locked_cells", "select_unlocked_cells", "sort"]
+BOOK_FLAGS = ["lock_revision", "lock_structure", "lock_windows"]
+
+TARGETS += [
+    t_record("ColumnReference", COLREF),
+    t_record("RowReference", ROWREF),
+    t_fn("coordinate_set_coordinate", COORDS, "set_coordinate", self_type="Coordinate", mut_self=True, records=REFS, str_generics=["S"],
+         extern_fns={"index_from_coordinate": (["str"], ("tuple", [OU, OU, OB, OB]), False)}),
+    t_fn("coordinate_get_coordinate", COORDS, "get_coordinate", self_type="Coordinate", records=REFS,
+         extern_fns={"coordinate_from_index_with_lock": (["u32", "u32", "bool", "bool"], "str", True)}),
+    t_record("StringValue", HOLDERS["StringValue"]),
+    t_record("UInt32Value", HOLDERS["UInt32Value"]),
+    t_record("BooleanValue", HOLDERS["BooleanValue"]),
+] + [t_fn("sheet_protection_set_" + f, SHEETP, "set_" + f, self_type="SheetProtection", mut_self=True, records=HOLDERS) for f in SHEET_FLAGS] \
+  + [t_fn("workbook_protection_set_" + f, BOOKP, "set_" + f, self_type="WorkbookProtection", mut_self=True, records=HOLDERS) for f in BOOK_FLAGS]
 
 HEADER = ("/-\n  GENERATED by tools/extract_fns.py from the current source of /repo — do not edit.\n"
           "  Functions, closures, fragments and constants compiled from a first-order Rust fragment (see the tool's doc string).\n-/\n"
